@@ -792,6 +792,9 @@ func (x *Exec) step(st *State, ins ssa.Instruction) {
 		mt := in.Type().Underlying().(*types.Map)
 		x.mapInit(st, mt, ref)
 		fr.regs[in] = leaf(in.Type(), ref)
+		if privateMap(in) {
+			st.privMaps = append(st.privMaps, privMap{ref: ref, mt: mt})
+		}
 	case *ssa.MakeSlice:
 		fr.regs[in] = x.makeSlice(st, in.Type(), x.get(st, in.Len))
 	case *ssa.MakeChan:
